@@ -390,6 +390,9 @@ func (p *Processor) ChargingDataRelease(
 		return problemDetails
 	}
 
+	// The charging session ends here: its reference no longer designates an open record
+	delete(ue.Cdr, chargingSessionId)
+
 	return nil
 }
 
